@@ -22,7 +22,31 @@ type Msg struct {
 	Name    string   `json:"name"`
 	Fields  []Fld    `json:"fields"`
 	Oneofs  []string `json:"oneofs"`  // declared oneof names, declaration order
-	Comment string   `json:"comment"` // raw leading comment ("" = none)
+	Comment []CLine  `json:"comment"` // leading comment, line by line (empty = none)
+}
+
+// CLine is one line of a leading comment: leading blanks, words (joined by one blank), trailing blanks
+// (may contain \r).  The raw comment is the concatenation of pre + words + post + "\n" over the lines.
+type CLine struct {
+	Pre  string   `json:"pre"`
+	W    []string `json:"w"`
+	Post string   `json:"post"`
+}
+
+// Raw renders comment lines the way protoc would hand them over in SourceCodeInfo.
+func Raw(c []CLine) string {
+	s := ""
+	for _, l := range c {
+		s += l.Pre
+		for i, w := range l.W {
+			if i > 0 {
+				s += " "
+			}
+			s += w
+		}
+		s += l.Post + "\n"
+	}
+	return s
 }
 
 // Fld is a field.  Ty is one of the 15 proto scalar type names, "enum",
@@ -42,7 +66,7 @@ type Fld struct {
 	Cast     string `json:"cast"`   // gogoproto.casttype
 	Custom   string `json:"custom"` // gogoproto.customtype
 	Std      string `json:"std"`    // "" | time | duration  (stdtime / stdduration)
-	Comment  string `json:"comment"`
+	Comment  []CLine `json:"comment"`
 }
 
 // Inj is an injected field.
